@@ -92,12 +92,8 @@ func prisonRun() {
 				panic("harness: rule not found after load: " + name)
 			}
 		}
-		// the periods the code will really use go into the trace
-		cpNs, spNs, ok := m.VerifPeriods(prod, name)
-		if !ok {
-			panic("harness: rule not found after load: " + name)
-		}
-		c.CpUs, c.SpUs = cpNs/1000, spNs/1000
+		// the trace carries the periods as configured (rule file seconds for "real", the values
+		// just set for "scaled"), never what the code derived from them
 	}
 
 	for i := 0; i < 50; i++ {
